@@ -70,6 +70,10 @@ def _cases(draw, tier):
 
 def _series(p, node_ids=None):
     q = dict(p)
+    kind = q.pop("flag_kind", "bool")
+    if q.get("max_load_independently_for_nodes") is True and kind != "bool":
+        # the same request as a numpy bool (a DataFrame cell, a comparison result) or as the integer 1
+        q["max_load_independently_for_nodes"] = np.bool_(True) if kind == "np_bool" else 1
     if isinstance(q.get("G"), list):
         ids = list(range(len(q["G"]))) if node_ids is None else list(node_ids)
         q["G"] = pd.Series(q["G"], index=pd.Index(ids, name="node_id"), dtype=np.float64)
@@ -218,6 +222,19 @@ def _batch_cases(draw, tier):
     case["seq"] = seq
     level = draw(st.sampled_from([0.4, 0.7, 1.0, 1.5]))
     case["unit"] = 2.0 ** math.floor(math.log2(level * case["params"]["R_m"] / case["params"]["c"] / m))
+    if draw(st.integers(0, 3)) == 0:
+        # low-cycle regime: many large cycles at a multiple of R_m, so that the highest loaded point reaches the damage sum 1
+        # within the two recorded passes (the early-failure branch of the damage calculators) next to points that do not
+        cyc = draw(st.integers(12, 40 if tier == "quick" else 80))
+        seq = []
+        for _ in range(cyc):
+            a = draw(st.integers(m - 8, m))
+            seq += [float(a), -float(draw(st.integers(m - 12, a)))]
+        seq[draw(st.integers(0, cyc - 1)) * 2] = float(m)
+        case["seq"] = _off_edges(seq, m)
+        level = draw(st.sampled_from([2.0, 3.0, 4.0]))
+        case["unit"] = 2.0 ** math.floor(math.log2(level * case["params"]["R_m"] / case["params"]["c"] / m))
+        case["lcf"] = True
     n = draw(st.integers(2, 4))
     factors = [1.0] + [draw(st.one_of(st.sampled_from([0.9, 0.75, 0.5, 0.37, 0.3, 0.2]), st.floats(0.15, 1.0))) for _ in range(n - 1)]
     order = list(draw(st.permutations(range(n))))
@@ -226,7 +243,8 @@ def _batch_cases(draw, tier):
         # small gradients (n_bm clipped to 1) and large ones (n_bm > 1 and different from point to point)
         case["params"]["G"] = [draw(st.sampled_from([2 / 15, 0.01, 1.0, 0.3, 5.0, 12.0, 30.0])) for _ in range(n)]
     # node ids are labels: 0..n-1, an ascending selection with gaps, or the same ids in the order an unsorted node set gives
-    layout = draw(st.sampled_from(["range", "range", "gaps", "unsorted"]))
+    case["params"]["flag_kind"] = draw(st.sampled_from(["bool", "bool", "np_bool", "int"]))
+    layout = draw(st.sampled_from(["range", "gaps", "unsorted", "unsorted"]))
     ids = sorted(draw(st.lists(st.integers(1, 5000), min_size=n, max_size=n, unique=True)))
     if layout == "unsorted":
         ids = list(draw(st.permutations(ids)))
@@ -276,7 +294,7 @@ def _on_class_edge(seq):
     return False
 
 
-@subcheck("C10", "batch_independence", strategy=_batch_cases, quick=40, thorough=1500, shards=16,
+@subcheck("C10", "batch_independence", strategy=_batch_cases, quick=64, thorough=1500, shards=16,
           doc="point j of a batch (per-point maxima, uniform or per-point G) == point j assessed alone")
 def batch_independence(case, ctx):
     p, seq, unit, factors = case["params"], case["seq"], case["unit"], case["factors"]
@@ -285,6 +303,8 @@ def batch_independence(case, ctx):
     base = [x * unit for x in seq]
     multi = [[f * x for x in base] for f in factors]
     ctx.label("points=%d" % len(factors), "G_per_point" if isinstance(p["G"], list) else "G_uniform", "node_ids=" + case.get("id_layout", "range"))
+    if case.get("lcf"):
+        ctx.label("low_cycle_long_sequence")
     try:
         rb = assess(p, None, multi=multi, node_ids=case.get("node_ids"))
     except ValueError as e:
